@@ -29,8 +29,10 @@ import (
 	"os"
 	"os/exec"
 	"path/filepath"
+	"flag"
 	"strconv"
 	"strings"
+	"sync"
 	"time"
 
 	"github.com/robfig/soy"
@@ -116,12 +118,57 @@ func c19ParseWorker(args []string) {
 	w.Flush()
 }
 
-// c19RunParses runs the cases in worker subprocesses.  hang = no "D" within the
-// timeout after "S"; crash = the process ended without "END".
+// c19Workers: how many subprocesses / model runners the harness keeps busy at once (the machine is shared: 4).
+func c19Workers() int {
+	if v, err := strconv.Atoi(os.Getenv("VERIF_C19_WORKERS")); err == nil && v >= 1 && v <= 16 {
+		return v
+	}
+	return 4
+}
+
+// c19RunParses runs the cases in worker subprocesses, sharded over c19Workers() of them (contiguous
+// slices of the case list: the result of case i does not depend on the sharding).
 func c19RunParses(e *env, cases []c19ParseCase) []c19Res {
 	res := make([]c19Res, len(cases))
+	nw := c19Workers()
+	if len(cases) < 8*nw {
+		nw = 1
+	}
+	var mu sync.Mutex
+	var notes []string
+	note := func(f string, a ...interface{}) {
+		mu.Lock()
+		notes = append(notes, fmt.Sprintf(f, a...))
+		mu.Unlock()
+	}
+	var wg sync.WaitGroup
+	per := (len(cases) + nw - 1) / nw
+	for w := 0; w < nw; w++ {
+		lo, hi := w*per, (w+1)*per
+		if hi > len(cases) {
+			hi = len(cases)
+		}
+		if lo >= hi {
+			break
+		}
+		wg.Add(1)
+		go func(w, lo, hi int) {
+			defer wg.Done()
+			c19RunShard(e.self, cases[lo:hi], res[lo:hi], w, note)
+		}(w, lo, hi)
+	}
+	wg.Wait()
+	for _, n := range notes {
+		e.res.Note("%s", n)
+	}
+	return res
+}
+
+// c19RunShard runs one shard in a worker subprocess.  hang = no "D" within the
+// timeout after "S"; crash = the process ended without "END".
+func c19RunShard(self string, cases []c19ParseCase, res []c19Res, shard int, note func(string, ...interface{})) {
 	if len(cases) == 0 {
-		return res
+		return
 	}
 	dir := os.Getenv("VERIF_BUILD")
 	if dir == "" {
@@ -129,27 +176,28 @@ func c19RunParses(e *env, cases []c19ParseCase) []c19Res {
 	}
 	dir = filepath.Join(dir, "tmp")
 	os.MkdirAll(dir, 0o755)
-	path := filepath.Join(dir, fmt.Sprintf("c19-%d-%d.json", os.Getpid(), time.Now().UnixNano()))
+	path := filepath.Join(dir, fmt.Sprintf("c19-%d-%d-%d.json", os.Getpid(), shard, time.Now().UnixNano()))
 	bs, _ := json.Marshal(cases)
 	if err := os.WriteFile(path, bs, 0o644); err != nil {
-		e.res.Note("cannot write the worker's case file: %v", err)
-		return res
+		note("cannot write the worker's case file: %v", err)
+		return
 	}
 	defer os.Remove(path)
 	const perCase = 2 * time.Second
 	i, restarts := 0, 0
 	for i < len(cases) {
-		cmd := exec.Command(e.self, "worker", "c19parse", path, strconv.Itoa(i))
+		cmd := exec.Command(self, "worker", "c19parse", path, strconv.Itoa(i))
+		cmd.Env = append(os.Environ(), "GOMAXPROCS=2")
 		out, err := cmd.StdoutPipe()
 		if err != nil {
-			e.res.Note("worker pipe: %v", err)
-			return res
+			note("worker pipe: %v", err)
+			return
 		}
 		var stderr strings.Builder
 		cmd.Stderr = &stderr
 		if err := cmd.Start(); err != nil {
-			e.res.Note("cannot start the worker: %v", err)
-			return res
+			note("cannot start the worker: %v", err)
+			return
 		}
 		lines := make(chan string, 64)
 		go func() {
@@ -211,7 +259,7 @@ func c19RunParses(e *env, cases []c19ParseCase) []c19Res {
 			// the worker died before starting the next case: give up on the batch rather than loop
 			restarts++
 			if restarts > 3 {
-				e.res.Note("worker keeps dying before case %d: %s", i, firstN(stderr.String(), 300))
+				note("worker keeps dying before case %d: %s", i, firstN(stderr.String(), 300))
 				for ; i < len(cases); i++ {
 					res[i] = c19Res{Class: "crash", Text: "worker unavailable"}
 				}
@@ -226,7 +274,6 @@ func c19RunParses(e *env, cases []c19ParseCase) []c19Res {
 		}
 		i = cur + 1
 	}
-	return res
 }
 
 func firstN(s string, n int) string {
@@ -235,6 +282,103 @@ func firstN(s string, n int) string {
 	}
 	return s
 }
+
+// ---------------------------------------------------------------------------
+// a small pool of model runners: e.m plus c19Workers()-1 more processes of the same binary, so that the
+// extracted model works on several shards at once.  Responses are matched to requests by position, so
+// the outcome does not depend on the sharding.
+
+type c19Pool struct {
+	ms    []*hx.Model
+	extra []*hx.Model
+}
+
+func c19NewPool(e *env) *c19Pool {
+	p := &c19Pool{}
+	if e.m == nil {
+		return p
+	}
+	p.ms = []*hx.Model{e.m}
+	path := ""
+	if f := flag.Lookup("model"); f != nil {
+		path = f.Value.String()
+	}
+	for len(p.ms) < c19Workers() && path != "" {
+		m, err := hx.StartModel(path)
+		if err != nil {
+			break
+		}
+		p.ms = append(p.ms, m)
+		p.extra = append(p.extra, m)
+	}
+	return p
+}
+
+func (p *c19Pool) close(e *env) {
+	for _, m := range p.extra {
+		if e.m != nil {
+			e.m.N += m.N
+		}
+		m.Close()
+	}
+	p.extra, p.ms = nil, nil
+}
+
+// batchGroups answers groups of requests (a group is sent to one runner, in order: its requests may depend
+// on one another, e.g. load_registry then render); the groups are dealt out in contiguous runs.
+func (p *c19Pool) batchGroups(groups [][]string) [][][]string {
+	out := make([][][]string, len(groups))
+	if len(p.ms) == 0 || len(groups) == 0 {
+		return out
+	}
+	nw := len(p.ms)
+	if len(groups) < 4*nw {
+		nw = 1
+	}
+	per := (len(groups) + nw - 1) / nw
+	var wg sync.WaitGroup
+	for w := 0; w < nw; w++ {
+		lo, hi := w*per, (w+1)*per
+		if hi > len(groups) {
+			hi = len(groups)
+		}
+		if lo >= hi {
+			break
+		}
+		wg.Add(1)
+		go func(m *hx.Model, lo, hi int) {
+			defer wg.Done()
+			var flat []string
+			for _, g := range groups[lo:hi] {
+				flat = append(flat, g...)
+			}
+			resp := m.Batch(flat)
+			k := 0
+			for i := lo; i < hi; i++ {
+				out[i] = resp[k : k+len(groups[i])]
+				k += len(groups[i])
+			}
+		}(p.ms[w], lo, hi)
+	}
+	wg.Wait()
+	return out
+}
+
+func (p *c19Pool) batch(reqs []string) [][]string {
+	groups := make([][]string, len(reqs))
+	for i, r := range reqs {
+		groups[i] = []string{r}
+	}
+	out := make([][]string, len(reqs))
+	for i, g := range p.batchGroups(groups) {
+		if len(g) == 1 {
+			out[i] = g[0]
+		}
+	}
+	return out
+}
+
+var c19pool *c19Pool
 
 // ---------------------------------------------------------------------------
 // lexical map of a valid file (from the real scanner's items, hook parse.VerifLex)
@@ -610,6 +754,7 @@ func c19ParseHalf(e *env, nBundles int) {
 // c19JudgeParses runs one batch of faulted files (worker subprocess, model tie) and evaluates the oracle.
 func c19JudgeParses(e *env, faults []c19Fault, cases []c19ParseCase) {
 	res := c19RunParses(e, cases)
+	c19ParseTextTie(e, faults, res)
 	c19ParseModelTie(e, faults)
 	for i, f := range faults {
 		r := res[i]
@@ -672,7 +817,7 @@ func c19ParseModelTie(e *env, faults []c19Fault) {
 		}
 		cases = append(cases, ptCase{Kind: "file", Text: f.Text, Fam: "c19:" + f.Class + ":" + f.Sub})
 	}
-	res := ptRun(e, cases, 2000, 2*time.Second)
+	res := c19PtRunSharded(e, cases)
 	var reqs []string
 	var idx []int
 	for i := range cases {
@@ -686,10 +831,101 @@ func c19ParseModelTie(e *env, faults []c19Fault) {
 			idx = append(idx, i)
 		}
 	}
-	for k, resp := range e.m.Batch(reqs) {
+	for k, resp := range c19pool.batch(reqs) {
 		i := idx[k]
 		e.res.Count("tie\x00"+cases[i].Text, true, "parse-tie:model-vs-implementation")
 		ptCompare(e, cases[i], &res[i], ptDecode(resp))
+	}
+}
+
+// c19PtRunSharded: parsetie.go's ptRun (real scanner and parser in worker subprocesses) on contiguous shards
+// of the case list at once; each shard reports into a private result that is merged afterwards.
+func c19PtRunSharded(e *env, cases []ptCase) []ptResult {
+	nw := c19Workers()
+	if len(cases) < 8*nw {
+		nw = 1
+	}
+	res := make([]ptResult, len(cases))
+	if len(cases) == 0 {
+		return res
+	}
+	per := (len(cases) + nw - 1) / nw
+	subs := make([]*env, nw)
+	var wg sync.WaitGroup
+	for w := 0; w < nw; w++ {
+		lo, hi := w*per, (w+1)*per
+		if hi > len(cases) {
+			hi = len(cases)
+		}
+		if lo >= hi {
+			break
+		}
+		sub := *e
+		sub.res = hx.NewResult(e.prop, e.tier, e.seed, "")
+		subs[w] = &sub
+		wg.Add(1)
+		go func(sub *env, lo, hi int) {
+			defer wg.Done()
+			copy(res[lo:hi], ptRun(sub, cases[lo:hi], 2000, 2*time.Second))
+		}(&sub, lo, hi)
+	}
+	wg.Wait()
+	for _, sub := range subs {
+		if sub == nil {
+			continue
+		}
+		for k, v := range sub.res.Histogram {
+			e.res.Histogram[k] += v
+		}
+		e.res.Notes = append(e.res.Notes, sub.res.Notes...)
+	}
+	return res
+}
+
+// c19ParseTextTie: the text of every positioned parse error must start with the prefix the extracted
+// Spec/ErrText.v computes (from errorAt's format literal, re-read by tablegen) for the File(), Line(), Col()
+// the error value carries -- "the same numbers appear in the message text", tied to the model.
+func c19ParseTextTie(e *env, faults []c19Fault, res []c19Res) {
+	if e.m == nil {
+		return
+	}
+	type key struct {
+		file      string
+		line, col int
+	}
+	seen := map[key]int{}
+	var reqs []string
+	var keys []key
+	for i := range faults {
+		r := res[i]
+		if faults[i].Kind != "parse" || r.Class != "err" || !r.HasPos || r.Line < 0 || r.Col < 0 || strings.Contains(r.File, "%") {
+			continue
+		}
+		k := key{r.File, r.Line, r.Col}
+		if _, ok := seen[k]; !ok {
+			seen[k] = len(reqs)
+			reqs = append(reqs, fmt.Sprintf("errprefix %s #%d #%d", hx.H(r.File), r.Line, r.Col))
+			keys = append(keys, k)
+		}
+	}
+	resp := c19pool.batch(reqs)
+	for i := range faults {
+		r := res[i]
+		if faults[i].Kind != "parse" || r.Class != "err" || !r.HasPos || r.Line < 0 || r.Col < 0 || strings.Contains(r.File, "%") {
+			continue
+		}
+		j := seen[key{r.File, r.Line, r.Col}]
+		if len(resp[j]) != 1 || strings.HasPrefix(resp[j][0], "!") {
+			e.res.Fail(hx.Violation{Kind: "mismatch", What: "the model does not compute the prefix of the error text (Spec/ErrText.v error_prefix)", Case: faults[i], Observed: fmt.Sprint(resp[j])}, "")
+			continue
+		}
+		prefix := hx.UnH(resp[j][0])
+		if strings.HasPrefix(r.Text, prefix) {
+			e.res.Histogram["parse-text:starts with the model's `template file:line:col: `"]++
+		} else {
+			e.res.Fail(hx.Violation{Kind: "mismatch", What: "the text of the parse error does not start with the prefix the model computes from errorAt's format for the error's own File()/Line()/Col()",
+				Case: faults[i], Expected: prefix, Observed: firstN(r.Text, 200)}, "")
+		}
 	}
 }
 
@@ -1034,7 +1270,9 @@ func c19RenderCases(e *env, nShapes int) []c19RenderCase {
 	return out
 }
 
-func c19RunRender(e *env, c c19RenderCase, idx int) {
+// c19RenderReal runs the implementation on one case and evaluates the oracle; it returns what the model part
+// needs: the observed file and line and the requests for the model runner (nil: nothing to compare).
+func c19RenderReal(e *env, c c19RenderCase, idx int) (rr c19RenderObs) {
 	b := soy.NewBundle()
 	for _, f := range c.Files {
 		b.AddTemplateString(f.Name, f.Text)
@@ -1044,7 +1282,7 @@ func c19RunRender(e *env, c c19RenderCase, idx int) {
 	e.res.Count(fmt.Sprint(c.Files), true, cls)
 	if err != nil {
 		e.res.Fail(hx.Violation{Kind: "oracle", What: "a generated bundle of the render half is rejected by the compiler (harness defect or compiler defect)", Case: c, Observed: err.Error()}, "")
-		return
+		return rr
 	}
 	tofu := soyhtml.NewTofu(reg)
 	d := c19Data()
@@ -1052,23 +1290,21 @@ func c19RunRender(e *env, c c19RenderCase, idx int) {
 	if idx%211 == 0 {
 		e.res.Sample(map[string]interface{}{"case": c, "error": errStr(rerr)})
 	}
-	var obsFile string
-	var obsLine int
 	switch {
 	case rerr == nil:
 		e.res.Fail(hx.Violation{Kind: "oracle", What: "the failing command did not fail (harness defect?)", Case: c}, "")
-		return
+		return rr
 	case isPanicErr(rerr):
 		e.res.Histogram["render:panic-escaped (C06's, not judged here)"]++
 		e.res.Fail(hx.Violation{Kind: "oracle", What: "a panic escaped Render instead of a positioned error", Case: c, Observed: errStr(rerr)}, "")
-		return
+		return rr
 	}
 	fp := errortypes.ToErrFilePos(rerr)
 	if fp == nil {
 		e.res.Fail(hx.Violation{Kind: "oracle", What: "the render error carries no file position", Case: c, Observed: errStr(rerr)}, "")
-		return
+		return rr
 	}
-	obsFile, obsLine = fp.File(), fp.Line()
+	obsFile, obsLine := fp.File(), fp.Line()
 	exp := fmt.Sprintf("%s:%d", c.ExpectFile, c.ExpectLine)
 	obs := fmt.Sprintf("%s:%d  (%s)", obsFile, obsLine, firstN(errStr(rerr), 160))
 	if obsFile != c.ExpectFile || obsLine != c.ExpectLine {
@@ -1086,21 +1322,46 @@ func c19RunRender(e *env, c c19RenderCase, idx int) {
 		}
 		e.res.Fail(hx.Violation{Kind: "oracle", What: what, Case: c, Expected: exp, Observed: obs}, "")
 	}
-	// model vs implementation: file and line computed by Interp.render
+	rr.file, rr.line, rr.obs = obsFile, obsLine, obs
 	if e.m == nil {
-		return
+		return rr
 	}
 	ids := newIDTable()
 	key := "c19reg" // one slot, overwritten: the model runner keeps every registry it is given
-	if r := e.m.Call("load_registry", key, registrySexp(reg, ids)); len(r) == 0 || r[0] != "#1" {
+	rr.reqs = []string{
+		strings.Join([]string{"load_registry", key, registrySexp(reg, ids)}, " "),
+		// the decidable hypothesis of the Coq theorems (Spec.ErrPos.positions_in_sourceb), evaluated by the extracted function
+		strings.Join([]string{"positions_ok", key, sx(c.Entry)}, " "),
+		strings.Join([]string{"render", key, sx(c.Entry), "#4000", "none", "none", "-", valueSexp(data.Map{}, ids), ";", valueSexp(d, ids)}, " "),
+	}
+	return rr
+}
+
+type c19RenderObs struct {
+	file string
+	line int
+	obs  string
+	reqs []string
+}
+
+// c19RenderModel compares the model's answers (to rr.reqs) with the implementation's file and line.
+func c19RenderModel(e *env, c c19RenderCase, rr c19RenderObs, resp [][]string) {
+	if len(rr.reqs) == 0 {
+		return
+	}
+	if len(resp) != 3 {
+		e.res.Fail(hx.Violation{Kind: "mismatch", What: "model render failed", Case: c, Observed: fmt.Sprint(resp)}, "")
+		return
+	}
+	obsFile, obsLine, obs := rr.file, rr.line, rr.obs
+	if r := resp[0]; len(r) == 0 || r[0] != "#1" {
 		e.res.Fail(hx.Violation{Kind: "mismatch", What: "model cannot load the registry", Case: c, Observed: fmt.Sprint(r)}, "")
 		return
 	}
-	// the decidable hypothesis of the Coq theorems (Spec.ErrPos.positions_in_sourceb), evaluated by the extracted function
-	if pr := e.m.Call("positions_ok", key, sx(c.Entry)); len(pr) < 1 || pr[0] != "#1" {
+	if pr := resp[1]; len(pr) < 1 || pr[0] != "#1" {
 		e.res.Fail(hx.Violation{Kind: "mismatch", What: "a node position of the entry template lies outside the source recorded for it (hypothesis positions_in_source of the C19 theorems)", Case: c, Observed: fmt.Sprint(pr)}, "")
 	}
-	r := e.m.Call("render", key, sx(c.Entry), "#4000", "none", "none", "-", valueSexp(data.Map{}, ids), ";", valueSexp(d, ids))
+	r := resp[2]
 	if len(r) < 5 {
 		e.res.Fail(hx.Violation{Kind: "mismatch", What: "model render failed", Case: c, Observed: fmt.Sprint(r)}, "")
 		return
@@ -1120,6 +1381,36 @@ func c19RunRender(e *env, c c19RenderCase, idx int) {
 		e.res.Histogram["render:model-not-modelled"]++
 	default:
 		e.res.Fail(hx.Violation{Kind: "mismatch", What: "model outcome " + r[0] + " where the implementation returns an error", Case: c, Observed: obs}, "")
+	}
+}
+
+
+// c19RunRender: one case, implementation and model (used by replay)
+func c19RunRender(e *env, c c19RenderCase, idx int) {
+	rr := c19RenderReal(e, c, idx)
+	if len(rr.reqs) > 0 {
+		c19RenderModel(e, c, rr, c19pool.batchGroups([][]string{rr.reqs})[0])
+	}
+}
+
+// c19RunRenders: the implementation case by case, the model on chunks of cases dealt out to the pool
+func c19RunRenders(e *env, cases []c19RenderCase) {
+	const chunk = 400
+	for lo := 0; lo < len(cases); lo += chunk {
+		hi := lo + chunk
+		if hi > len(cases) {
+			hi = len(cases)
+		}
+		obs := make([]c19RenderObs, hi-lo)
+		groups := make([][]string, hi-lo)
+		for i := lo; i < hi; i++ {
+			obs[i-lo] = c19RenderReal(e, cases[i], i)
+			groups[i-lo] = obs[i-lo].reqs
+		}
+		resp := c19pool.batchGroups(groups)
+		for i := lo; i < hi; i++ {
+			c19RenderModel(e, cases[i], obs[i-lo], resp[i-lo])
+		}
 	}
 }
 
@@ -1180,16 +1471,19 @@ func c19Duplicates(e *env, n int) {
 
 func runC19(e *env) {
 	e.res.Rule = "parse half: valid generated bundles (command grammar, commands spread over lines, six file-name shapes, LF/CRLF, with/without final newline) x every line x fault classes {illegal character in a tag, stray } in text, unterminated string/comment/soydoc/tag, unknown command, end of input inside a template, fault inside a quoted attribute expression}; parse.SoyFile (6%: Bundle.Compile) in a worker subprocess. Render half: entry templates nesting every block command x every executed line x call depth 0-3 x failing command; robfig/soy Render vs the oracle and vs Interp.render's file/line. Distinct by source text."
+	c19pool = c19NewPool(e)
+	defer c19pool.close(e)
 	if e.replay != "" {
 		c19Replay(e)
 		return
 	}
+	t0 := time.Now()
 	c19ParseHalf(e, 60*e.scale)
+	t1 := time.Now()
 	cases := c19RenderCases(e, 150*e.scale)
-	for i, c := range cases {
-		c19RunRender(e, c, i)
-	}
+	c19RunRenders(e, cases)
 	c19Duplicates(e, 6*e.scale)
+	e.res.Note("timing: parse half %.1fs, render half %.1fs, %d workers", t1.Sub(t0).Seconds(), time.Since(t1).Seconds(), c19Workers())
 }
 
 func c19Replay(e *env) {
